@@ -258,8 +258,9 @@ def clause_coord(repo, chk):
     MINI = ("minimize", "my_minimize")
     n_br = 0
 
-    def analyse(label, stmts, fkey, line):
+    def analyse(label, stmts, fkey, line, outer_defs=None):
         nonlocal n_br
+        outer_defs = outer_defs or {}
         nodes = [x for st in stmts for x in ast.walk(st)]
         defs = {}
         for x in nodes:
@@ -295,6 +296,32 @@ def clause_coord(repo, chk):
                     flag = x.args[1] if len(x.args) > 1 else next((k.value for k in x.keywords if k.arg == "val_in_fit"), None)
                     c = "fit" if (flag is not None and const_value(flag) is True) else "raw"
                 writes.append((c, x))
+        # the start point handed to the minimiser is in the coordinate of its objective
+        def start_coord(e, depth=0):
+            t = norm_text(e)
+            if "get_all_val(True" in t.replace(" ", "") or "val_in_fit=True" in t.replace(" ", ""):
+                return "fit"
+            if ".numpy()" in t or "get_all_val(" in t:
+                return "raw"
+            if depth < 4:
+                for nm in sorted({y.id for y in ast.walk(e) if isinstance(y, ast.Name)}):
+                    cands = [r for r in defs.get(nm, []) if r is not e and not isinstance(r, ast.FunctionDef)] or outer_defs.get(nm, [])
+                    got = {start_coord(r, depth + 1) for r in cands if r is not e and not isinstance(r, ast.FunctionDef)} - {None}
+                    if len(got) == 1:
+                        return got.pop()
+            return None
+
+        starts = []
+        for c_obj, x in objectives:
+            if isinstance(x.args[0] if x.args else None, ast.Lambda):
+                continue
+            st_e = x.args[1] if len(x.args) > 1 else next((k.value for k in x.keywords if k.arg == "x0"), None)
+            if st_e is not None:
+                starts.append((c_obj, start_coord(st_e), x, st_e))
+        for c_obj, c_st, x, st_e in starts:
+            if c_st is not None and c_st != c_obj:
+                chk.violation("C-coord", fkey, "start:%s" % label, "%s: the minimiser works on %s but starts from `%s`, a point in the %s coordinate: with a range registered for a free parameter the fit silently starts somewhere else than the model stands (the reported minimum can lie above the NLL the fit was called at)" % (label, "the bound-transformed fit coordinate" if c_obj == "fit" else "the raw model coordinate", norm_text(st_e)[:40], "model" if c_st == "raw" else "fit"), file=FITF, line=x.lineno)
+                break
         n_br += 1
         # an ad-hoc lambda objective (the derivative-free variant `lambda x: float(fcn(x))`) is reported, not judged
         lam = [o for o in objectives if isinstance(o[1].args[0] if o[1].args else None, ast.Lambda)]
@@ -312,10 +339,20 @@ def clause_coord(repo, chk):
 
     fs = repo.fn(FITF + "::fit_scipy")
     chain = [st for st in fs.node.body if isinstance(st, ast.If) and "method" in norm_text(st.test)]
+    # bindings made before the method dispatch (the start vector collected from the trainable variables)
+    outer = {}
+    for st in fs.node.body:
+        if st in chain:
+            break
+        for x in ast.walk(st):
+            if isinstance(x, ast.Assign) and len(x.targets) == 1 and isinstance(x.targets[0], ast.Name):
+                outer.setdefault(x.targets[0].id, []).append(x.value)
+            if isinstance(x, ast.Call) and isinstance(x.func, ast.Attribute) and x.func.attr in ("append", "extend") and isinstance(x.func.value, ast.Name) and x.args:
+                outer.setdefault(x.func.value.id, []).append(x.args[0])
     for top in chain:
         cur = top
         while isinstance(cur, ast.If):
-            analyse("fit_scipy[%s]" % norm_text(cur.test)[:40], cur.body, fs.key, cur.lineno)
+            analyse("fit_scipy[%s]" % norm_text(cur.test)[:40], cur.body, fs.key, cur.lineno, outer)
             cur = cur.orelse[0] if len(cur.orelse) == 1 and isinstance(cur.orelse[0], ast.If) else None
     fn2 = repo.fn_opt(FITF + "::fit_newton_cg") if hasattr(repo, "fn_opt") else None
     if fn2 is not None:
